@@ -1,3 +1,4 @@
+import Driver.Thm08
 import Driver.Proto
 import XmlRsModel.Chars
 import XmlRsModel.Names
@@ -139,6 +140,7 @@ def dispatch (op : String) (args : List Str) : String :=
   | "pipeline", [s] => opAccept "cur" s
   | "roundtrip", [s] => opRoundtrip s
   | "thm04", [s] => opThm04 s
+  | "thm08", [s] => opThm08 s
   | "chardata", k :: c :: ops => chardata (String.ofList k) c ops
   | "dom", t :: _ :: ops => opDom t ops
   | "query", t :: b :: es => opQuery "rz" t b es
